@@ -124,18 +124,29 @@ impl<'a, P: for<'p> Protocol<'p>> DemoWriter<'a, P> {
         let old_snap = mem::take(&mut self.snap);
         let new_snap = mem::take(&mut self.builder).finish();
 
-        self.inner.write_tick(is_keyframe, tick)?;
-        if is_keyframe {
-            let keys = &mut self.i32_buf;
-            with_packer(&mut self.buf, |p| new_snap.write(keys, p))
-                .map_err(|_| WriteError::TooLargeSnap)?;
-            self.inner.write_snapshot(&self.buf)?;
-        } else {
-            self.delta.create(&old_snap, &new_snap);
-            let delta = &self.delta;
-            with_packer(&mut self.buf, |p| delta.write(P::obj_size, p))
-                .map_err(|_| WriteError::TooLargeSnap)?;
-            self.inner.write_snapshot_delta(&self.buf)?;
+        let result = (|| -> Result<(), WriteError> {
+            self.inner.write_tick(is_keyframe, tick)?;
+            if is_keyframe {
+                let keys = &mut self.i32_buf;
+                with_packer(&mut self.buf, |p| new_snap.write(keys, p))
+                    .map_err(|_| WriteError::TooLargeSnap)?;
+                self.inner.write_snapshot(&self.buf)?;
+            } else {
+                self.delta.create(&old_snap, &new_snap);
+                let delta = &self.delta;
+                with_packer(&mut self.buf, |p| delta.write(P::obj_size, p))
+                    .map_err(|_| WriteError::TooLargeSnap)?;
+                self.inner.write_snapshot_delta(&self.buf)?;
+            }
+            Ok(())
+        })();
+        if let Err(err) = result {
+            // The snapshot didn't make it into the demo: the next delta still
+            // has to be relative to the previous one.
+            self.snap = old_snap;
+            self.builder = new_snap.recycle();
+            self.buf.clear();
+            return Err(err);
         }
 
         // Snap deltas always rely on the snap of the last tick in the demo.
